@@ -22,6 +22,31 @@ CHECKS = {
         note=TRUSTED + " Bounded: parent frames of 5-6 rows, depth as stated, 8 type combinations.",
         design_ref="§5 C11",
     ),
+    "C03": dict(
+        category="model_checking", engine="vsched",
+        technique="stateless model checking of the instrumented real exec.Eval under a controlled scheduler (delay- and preemption-bounded, happens-before state caching) + explicit-state search of the evaluator's scheduling core",
+        text=("The real exec.Eval (source-instrumented: every mutex, channel, select, go statement and map iteration goes through the vsched runtime) is run on "
+              "hand-built task graphs (single, chain2, chain3, diamond, two roots sharing a dependency, shuffle phase with task groups) with a harness Executor whose "
+              "task outcomes OK/LOST/ERR and later losses of completed tasks are environment choices. For EVERY assignment of initial states INIT/OK/LOST/ERR to the tasks, "
+              "and for one and two concurrent evaluations sharing the tasks, all schedules with <= 1-2 (quick) / 2-3 (thorough) deviations from the default scheduler (delay bounding) "
+              "and <= 1 (quick) / 2 (thorough) preemptions are enumerated modulo happens-before equivalence. Monitors check: no hand-out over a dependency that never completed / is in ERROR / "
+              "(without later loss) is not OK; no overlapping hand-outs of one task; no unneeded task run; nil only if every root completed and no task failed fatally; error only if a task failed fatally "
+              "or the consecutive-loss limit (exactly 5 hand-outs) was reached; no deadlock. A second layer drives the unexported scheduling core (Enqueue/Return/Runnable/Done) through every history of "
+              "task outcomes up to depth 5/7 from every initial assignment with explicit-state de-duplication."),
+        note=TRUSTED + " vsched assumptions: explored code is data-race free; all blocking interactions go through instrumented constructs (unmanaged-operation counter reported); 64-bit history hashes do not collide. "
+             "Bounded: graphs of <= 4 tasks, stated deviation bounds, environment loss budget < 5 except in the always-lost scenarios; per-plan time budgets (hitting one sets exhaustive:false).",
+        design_ref="§4 E1, §5 C03",
+    ),
+    "C18": dict(
+        category="exploration",
+        technique="exhaustive enumeration of the cross product of a finite universe of slice types x function signatures per constructor against independent schema predicates",
+        text=("Full cross product (54k constructor calls) of 15 input slice types x 135 function values (plus column tuples, shard counts, prefix values, argument tuples) for Const, ReaderFunc, WriterFunc, Map, Filter, "
+              "Flatmap, Fold, Head, Scan, Prefixed, Reduce, Cogroup, Reshuffle, Repartition, Reshard, Func, Invocation and Apply. An independent predicate per constructor transcribed from its doc comment decides "
+              "accept/reject; on reject the panic value must be a *typecheck.Error whose file:line is the harness call site and no user function may have run; on accept the result has the documented columns, prefix and shard count. "
+              "Cases the documentation leaves open are excluded a priori (rules R0-R8 listed in the evidence)."),
+        note=TRUSTED + " The schema predicates are this harness's reading of the doc comments; exclusion rules are stated in evidence.rule.",
+        design_ref="§5 C18",
+    ),
 }
 
 NOT_YET = "check designed in DESIGN.md §5 but not yet built/validated in this tree; not claimed"
@@ -60,7 +85,7 @@ def main():
         "engines": [
             {"name": "seqmc", "path": "harness/ev + harness/cmd/*", "serves_properties": sorted(CHECKS),
              "kind_free_text": "bounded-exhaustive explicit-state / operation-sequence / fault-point enumeration on the real code against reference models"},
-            {"name": "vsched", "path": "engine/vrt + engine/instrument", "serves_properties": [],
+            {"name": "vsched", "path": "engine/vrt + engine/instrument", "serves_properties": [k for k, v in CHECKS.items() if v.get("engine") == "vsched"],
              "kind_free_text": "source instrumenter + controlled cooperative scheduler: stateless exploration of goroutine interleavings of the real exec package with happens-before state caching, delay/preemption bounding"},
         ],
         "checks": checks,
